@@ -210,6 +210,33 @@ theorem C01_full_partial_unfilled_slots_render_their_default_django (env : Env) 
     hidle (by rw [hl]; exact hc2) (by intro k _; rw [hl]; rfl)
   exact ⟨h1, s', h2⟩
 
+/-- **A `required` slot that no fill addresses raises — the same exception in the code and in the reading, end to end**
+(django mode).  More generally: whatever exception (other than running out of fuel) stops the template of such a
+component — the `required` check, an unhashable slot name, the work budget — the model of the code, through
+`ComponentNode.render`, `_render_impl` and `component_post_render`, and the reading of the property raise the same. -/
+theorem C01_full_partial_template_failure_same_exception_django (env : Env) (i : Nat) (name : Str)
+    (kwargs : List (Str × Expr)) (dyn : Bool) (ctx : Ctx) (w : World) (e : Djc.SpecRender.SEnv)
+    (s : Djc.SpecRender.SState) (d : CompDef) (er : Err) (st : Nat)
+    (hmode : env.isolated = false)
+    (hr : env.raiseAt = none) (hd : findDef env name = some d) (hdyn : isDynName name = false)
+    (hp : Djc.Proofs.Slotty.slottyL d.template = true) (ho : Djc.Proofs.Slotty.okSL d.template = true)
+    (hsrc : d.data.all (fun kv => Djc.Proofs.Leaf.pureSrc kv.2) = true)
+    (hsteps : ¬ w.steps ≥ env.maxSteps) (hgcd : w.gcds < env.maxInst) (hext : isExtracting ctx = false)
+    (hpar : ∀ p, ctxGet ctx compKey ≠ some (.compRef p)) (hout : ctxGet (snapshot ctx) compKey = none)
+    (hprov : w.provideCache = []) (hf3 : alGet w.nextId w.childAttrs = none)
+    (hc : Djc.Proofs.Plain.ctxFree (Djc.Proofs.Leaf.leafCtx ctx w.nextId (evalKwargs ctx kwargs) d) = true)
+    (hfg : ctxGet (Djc.Proofs.Leaf.leafCtx ctx w.nextId (evalKwargs ctx kwargs) d) fillGenKey = none)
+    (hok : Djc.Proofs.Slotty.qNodes true env.maxSteps (i + 1) d.template
+      (Djc.Proofs.Leaf.leafCtx ctx w.nextId (evalKwargs ctx kwargs) d) (w.steps + 1) = (.error er, st))
+    (hnf : er ≠ .outOfFuel)
+    (he : e.vars = ctx) (hsid : s.nextId = w.nextId) (hss : s.steps = w.steps) (hidle : ¬ s.nextId > env.maxInst)
+    (hc2 : Djc.Proofs.Plain.ctxFree (Djc.Proofs.LeafSpec.specVars false ctx w.nextId (evalKwargs ctx kwargs) d) = true) :
+    ((renderNode env (i + 6) (.comp name kwargs false dyn []) ctx).run.run w).1 = .error er ∧
+      (Djc.SpecRender.sNode env (i + 6) (.comp name kwargs false dyn []) e).run s = .error er := by
+  have hl : (false || env.isolated) = false := by rw [hmode]; rfl
+  exact Djc.Proofs.Slotty.leaf_slotty_fail_alike env i name kwargs false dyn ctx ctx w e s d er st (by rw [hl]; rfl) hr hd hdyn hp ho
+    hsrc hsteps hgcd hext hpar hout hprov hf3 hc hfg hok hnf he hsid hss hidle (by rw [hl]; exact hc2) (by intro k _; rw [hl]; rfl)
+
 /-! ### the hypotheses of the slot theorem are satisfiable -/
 
 section SlotExample
@@ -255,6 +282,37 @@ example :
     rfl rfl rfl (by decide +kernel) (by decide +kernel)).1
   rw [h]
   decide +kernel
+def exDefReq : CompDef :=
+  { name := "c1".toList,
+    template := [.text "a".toList, .slot (.lit "s".toList) false true [] [.text "dflt".toList]],
+    data := [] }
+def exEnvReq : Env := { isolated := false, lib := [exDefReq] }
+
+/-- `{% component "c1" %}{% endcomponent %}` with template `a{% slot "s" required %}dflt{% endslot %}`: the model of
+the code raises `TemplateSyntaxError` (required slot not filled) through the whole pipeline. -/
+example :
+    ((renderNode exEnvReq 14 (.comp "c1".toList [] false false []) exCtx).run.run {}).1 =
+      .error (.tse "required slot not filled") := by
+  have h0 : (ctxGet exCtx compKey).isNone = true := by decide +kernel
+  have hpar : ∀ p, ctxGet exCtx compKey ≠ some (.compRef p) := by
+    intro p hp; rw [hp] at h0; cases h0
+  have h1 : (ctxGet (snapshot exCtx) compKey).isNone = true := by decide +kernel
+  have hout : ctxGet (snapshot exCtx) compKey = none := by
+    cases h : ctxGet (snapshot exCtx) compKey with
+    | none => rfl
+    | some v => rw [h] at h1; cases h1
+  have h2 : (ctxGet (Djc.Proofs.Leaf.leafCtx exCtx 1 (evalKwargs exCtx []) exDefReq) fillGenKey).isNone = true := by decide +kernel
+  have hfg : ctxGet (Djc.Proofs.Leaf.leafCtx exCtx 1 (evalKwargs exCtx []) exDefReq) fillGenKey = none := by
+    cases h : ctxGet (Djc.Proofs.Leaf.leafCtx exCtx 1 (evalKwargs exCtx []) exDefReq) fillGenKey with
+    | none => rfl
+    | some v => rw [h] at h2; cases h2
+  have hfd : findDef exEnvReq "c1".toList = some exDefReq := by
+    simp [findDef, exEnvReq, exDefReq]
+  exact (C01_full_partial_template_failure_same_exception_django exEnvReq 8 "c1".toList [] false
+    exCtx {} (.mk exCtx [] none []) {} exDefReq (.tse "required slot not filled") 3
+    rfl rfl hfd (by decide +kernel) (by decide +kernel) (by decide +kernel) (by decide +kernel) (by decide +kernel)
+    (by decide +kernel) (by decide +kernel) hpar hout rfl rfl (by decide +kernel) hfg (by decide +kernel) (by decide)
+    rfl rfl rfl (by decide +kernel) (by decide +kernel)).1
 end SlotExample
 
 /-- The property at full strength, as a statement about the two interpreters: whenever neither
